@@ -818,6 +818,17 @@ class Oracle:
                     U, th = base.unittwist2_norm(S)
                     want = np.linalg.norm(w) if np.linalg.norm(w) >= thr else np.linalg.norm(v)
                     self.ok('theta-returned', 'unittwist2_norm', case, abs(th - want) / want, TOL, S)
+        # multi-valued objects (sequence branch of Twist3.unit / Twist2.unit): the unit twist of each element
+        for site, C, f, n in (('Twist3.unit(seq)', Twist3, base.unittwist, 6), ('Twist2.unit(seq)', Twist2, base.unittwist2, 3)):
+            for _ in range(20):
+                Ss = [np.r_[rand_unit(rng, n - n // 2) * log_uniform(rng, 1e-6, 1e6), rand_unit(rng, n // 2) * log_uniform(rng, 1e-6, 1e6)
+                            if n == 6 else [log_uniform(rng, 1e-6, 1e6)]] for _ in range(3)]
+                try:
+                    U = C(Ss).unit
+                    err = 1.0 if len(U) != 3 else max(np.max(np.abs(np.asarray(u, float) - np.asarray(f(x), float))) for u, x in zip(U.data, Ss))
+                    self.ok('elementwise', site, 'w-above', err, 0.0, np.r_[Ss[0], Ss[1], Ss[2]])
+                except Exception as ex:
+                    self.raised(site, ex, np.r_[Ss[0], Ss[1], Ss[2]])
         self.ok('zero-gives-None', 'unittwist', 'zero', 0.0 if base.unittwist(np.zeros(6)) is None else 1.0, 0.5, np.zeros(6))
         self.ok('zero-gives-None', 'unittwist_norm', 'zero', 0.0 if base.unittwist_norm(np.zeros(6)) == (None, None) else 1.0, 0.5, np.zeros(6))
         self.ctx.sample({'kind': 'oracle', 'law': 'unittwist valid/idempotent', 'S': S.tolist()})
@@ -926,7 +937,7 @@ def oracle(ctx, th, rng=None):
     o.angles(ctx.n(5000, 150000))
 
 
-DEFAULT_TH = {'unitvec': ('keps', 100), 'unitvec_norm': ('keps', 100), 'qunit': ('keps', 10), 'twist_S': ('keps', 10),
+DEFAULT_TH = {'unitvec': ('keps', 10), 'unitvec_norm': ('keps', 10), 'qunit': ('keps', 10), 'twist_S': ('keps', 10),
               'twistn_S': ('keps', 10), 'twist_w': ('keps', 10), 'twist2_w': ('keps', 10)}
 
 
